@@ -148,14 +148,20 @@ func (d *oaDoc) eval(schema any, v any, path string, errs *[]string, depth int) 
 			return
 		}
 		n := utf8.RuneCountInString(str)
+		// evidence for the key: a length keyword on a string that carries binary data counts the characters of
+		// the base64 text, not the bytes
+		note := ""
+		if f, _ := s["format"].(string); f == "binary" || f == "byte" {
+			note = " [text of a " + f + " string]"
+		}
 		if mn, ok := num(s["minLength"]); ok && n >= 0 {
 			if m, _ := mn.Int64(); int64(n) < m {
-				add("length", "length %d < minLength %d", n, m)
+				add("length", "length %d < minLength %d%s", n, m, note)
 			}
 		}
 		if mx, ok := num(s["maxLength"]); ok && n >= 0 {
 			if m, _ := mx.Int64(); int64(n) > m {
-				add("length", "length %d > maxLength %d", n, m)
+				add("length", "length %d > maxLength %d%s", n, m, note)
 			}
 		}
 		if p, ok := s["pattern"].(string); ok && p != "" {
